@@ -19,7 +19,7 @@ theorem parseLoop_sIf_then (c : List String) (w : X Rat) (rest : List String) : 
   | t :: a, a0, h => by
     have ht : t ≠ "then" := fun e => h (by simp [e])
     have := parseLoop_sIf_then c w rest a (a0 ++ [t]) (fun hm => h (by simp [hm]))
-    simp only [List.cons_append, parseLoop, ht, if_false, this, List.append_assoc, List.singleton_append, List.cons_append, List.nil_append]
+    simp only [List.cons_append, parseLoop, ht, if_false, this, List.append_assoc, List.nil_append]
 
 theorem parseLoop_sThen_noWith (a c0 : List String) (w : X Rat) : ∀ (ts : List String), "with" ∉ ts →
     parseLoop .sThen a c0 w ts = .ok (.sThen, a, c0 ++ ts, w)
@@ -35,7 +35,7 @@ theorem parseLoop_sThen_with (a : List String) (w : X Rat) (rest : List String) 
   | t :: c, c0, h => by
     have ht : t ≠ "with" := fun e => h (by simp [e])
     have := parseLoop_sThen_with a w rest c (c0 ++ [t]) (fun hm => h (by simp [hm]))
-    simp only [List.cons_append, parseLoop, ht, if_false, this, List.append_assoc, List.singleton_append, List.cons_append, List.nil_append]
+    simp only [List.cons_append, parseLoop, ht, if_false, this, List.append_assoc, List.nil_append]
 
 /-- the texts `Rule.parse` is documented to accept, with what it returns -/
 def RuleForm (ts : List String) (p : ParsedRule) : Prop :=
